@@ -185,7 +185,7 @@ func normMap(b []byte, entry int) []byte {
 // checkScale applies the C12 oracle to one mutant. Returns whether it decoded.
 //
 //	(1) no panic
-//	(2) allocation delta <= 64*len(input) + 64 KiB
+//	(2) allocation delta <= 64*len(input) + 128 KiB
 //	(3) error, OR a value v with Marshal(v) == input[:len(Marshal(v))]
 //	    (Unmarshal does not require the whole input to be consumed; the
 //	    re-encoding is the consumed prefix. A truncated input that was
@@ -223,7 +223,7 @@ func (c *ctx) checkScale(a *scaleArtifact, m mutant) bool {
 				cls = "alloc-declared-bytes-length-preallocated"
 			}
 		}
-		c.report("alloc", cls, "%s: %s %s: input %s (%d bytes): decoding allocated %d bytes, bound 64*len+64KiB = %d (err=%v)",
+		c.report("alloc", cls, "%s: %s %s: input %s (%d bytes): decoding allocated %d bytes, bound 64*len+128KiB = %d (err=%v)",
 			a.name, m.kind, m.detail, hx(m.data), len(m.data), exact, 64*len(m.data)+allocFloor, err)
 	}
 	if err != nil {
